@@ -292,6 +292,10 @@ def write_evidence(pid, tier, level, coverage, wall, violations=0, assumptions=(
     ev = {"property_id": pid, "tier": tier, "seed": seed(), "level": level, "coverage": coverage,
           "assumptions": list(assumptions), "wall_s": round(wall, 2), "violations": violations}
     p = os.path.join(VERIF, "evidence", pid + ".json")
+    if os.environ.get("VERIF_EXTRA_OVERLAY"):
+        # a self-test run against a mutated build: its evidence describes the mutant, not /repo; keep it apart
+        os.makedirs(os.path.join(BUILD, "overlay-evidence"), exist_ok=True)
+        p = os.path.join(BUILD, "overlay-evidence", "%s-%s.json" % (pid, os.environ["VERIF_EXTRA_OVERLAY"]))
     with open(p + ".tmp", "w") as f:
         json.dump(ev, f, indent=1, default=str)
     os.replace(p + ".tmp", p)
